@@ -18,6 +18,15 @@
 (* neither end up in this reply's event nor make it lose parts, and the     *)
 (* other reply gets its own event.                                          *)
 (*                                                                          *)
+(* Environment.  Other components may listen to the raw per-part event       *)
+(* (RawStatsReply) on the nexus and/or on the connection, and may halt it,  *)
+(* raise an exception in their handler, or unsubscribe while a reply is     *)
+(* being assembled.  None of that is any of the aggregation's business: the *)
+(* expectation of Part does not depend on its `raw` argument.  raw is one   *)
+(* of  none / listen (passive listeners on both) / halt_nexus / halt_con /  *)
+(* raise_nexus / raise_con / remove_nexus / remove_con  and describes the   *)
+(* listeners present while this one part is processed.                      *)
+(*                                                                          *)
 (* Abstract state: pend[k] = the parts of request k's reply received so far *)
 (* (each part = the sequence of its entries), gen[k] = how many replies for *)
 (* key k have been completed (a transaction id may be used again once its   *)
@@ -32,6 +41,7 @@ CONSTANTS NK,          \* requests (keys) are 1..NK
           MaxN,        \* entries per part: 0..MaxN
           KGen,        \* <<replies modelled for key k>>
           OtherKinds,  \* unrelated messages that may arrive in between
+          RawModes,    \* what listeners of the RAW per-part event (RawStatsReply) do, see below
           D            \* export depth
 
 Keys == 1..NK
@@ -73,13 +83,13 @@ Log(a, args, exp) ==
              ELSE Append(hist, [a |-> a, args |-> args, exp |-> exp])
 
 \* one STATS_REPLY message of request k arrives
-Part(k, more, n) ==
+Part(k, more, n, raw) ==
   /\ gen[k] < KGen[k]
   /\ Len(pend[k]) < KMax[k]
   /\ KType[k] \in Single => (~more /\ n = 1)
   /\ LET new == NewEntries(k, n)
          args == [k |-> k, t |-> KType[k], x |-> KXid[k], g |-> gen[k],
-                  first |-> Len(Flat(pend[k])) + 1, n |-> n, more |-> more]
+                  first |-> Len(Flat(pend[k])) + 1, n |-> n, more |-> more, raw |-> raw]
      IN IF more
         THEN /\ pend' = [pend EXCEPT ![k] = Append(@, new)]
              /\ UNCHANGED gen
@@ -93,10 +103,10 @@ Other(kind) ==
   /\ UNCHANGED <<pend, gen>>
   /\ Log("Other", [kind |-> kind], Quiet)
 
-PartMore(k, n) == Part(k, TRUE, n) /\ TRUE
-PartFinal(k, n) == Part(k, FALSE, n) /\ TRUE
-More == \E k \in Keys, n \in 0..MaxN : PartMore(k, n)
-Final == \E k \in Keys, n \in 0..MaxN : PartFinal(k, n)
+PartMore(k, n, raw) == Part(k, TRUE, n, raw) /\ TRUE
+PartFinal(k, n, raw) == Part(k, FALSE, n, raw) /\ TRUE
+More == \E k \in Keys, n \in 0..MaxN, raw \in RawModes : PartMore(k, n, raw)
+Final == \E k \in Keys, n \in 0..MaxN, raw \in RawModes : PartFinal(k, n, raw)
 Unrelated == \E kind \in OtherKinds : Other(kind)
 
 Next == More \/ Final \/ Unrelated
